@@ -9,7 +9,7 @@ BUDGET = {"quick": 1600, "thorough": 200000}
 RULE = ("scenario = 2-7 jobs with tag sets drawn from a 5-tag universe (incl. empty, equal, nested, disjoint), created through all six "
         "calls; once() with all four timing kinds and tags given as set, frozenset, list, tuple, generator, dict keys or None; "
         "queries get_jobs / delete_jobs with subset, superset, overlapping, disjoint, empty and None tag sets and both any_tag "
-        "values, interleaved with polls; Spec: returned / deleted set = the set computed from the ORIGINAL tags by the property's "
+        "values, interleaved with polls and with the caller mutating a tag set it passed earlier; Spec: returned / deleted set = the set computed from the ORIGINAL tags by the property's "
         "own rule; non-trivial = a query that selects some but not all jobs, or a once() call with a non-set iterable; "
         "distinct by scenario hash")
 ASSUMPTIONS = c01.ASSUMPTIONS
@@ -47,6 +47,9 @@ def scenarios(rng, n, tier):
             qc = rng.random()
             q = None if qc < 0.1 else ([] if qc < 0.2 else sorted(rng.sample(range(1, 7), rng.randint(1, 3))))
             any_ = rng.random() < 0.5
+            if rng.random() < 0.15:
+                # the caller goes on using (clears, refills) the very tag set it passed when scheduling
+                scn["ops"].append({"op": "mutate", "key": rng.randrange(nj), "what": "tags"})
             if c < 0.6:
                 scn["ops"].append({"op": "get", "tags": q, "any": any_})
             elif c < 0.8:
